@@ -2,12 +2,14 @@
     stay Coq datatypes; no Extract Constant). Run coqc from the ocaml/ directory. *)
 Require Extraction.
 Require Import ExtrOcamlBasic.
-From IAVL Require Import Bytes Varint Sha256 Tree VMap MTree KV Iter ExportImport Codec.
+From IAVL Require Import Bytes Varint Sha256 Tree VMap MTree KV Iter ExportImport Codec Diff Store Ics23.
 
 Definition m_step := MTree.step sha256.
 Definition m_init := MTree.init_state.
 
 Definition imp_run_sha := ExportImport.imp_run sha256.
+Definition commit_ops_sha := Store.commit_ops sha256.
+Definition get_proof_sha := Ics23.get_proof sha256.
 Definition cimp_run_sha := ExportImport.cimp_run sha256.
 
 Extraction "model.ml" m_step m_init bcmp sha256 uvarint_enc uvarint_dec varint_enc varint_dec
@@ -17,4 +19,6 @@ Extraction "model.ml" m_step m_init bcmp sha256 uvarint_enc uvarint_dec varint_e
   ExportImport.export imp_run_sha cimp_run_sha ExportImport.compress ExportImport.decompress
   Codec.decode_node Codec.decode_legacy_node Codec.decode_fast_node Codec.encode_node Codec.encode_fast_node
   Codec.node_key_bytes Codec.classify_root Codec.fast_storage_label Codec.db_node_key Codec.db_fast_key Codec.db_meta_key
-  Codec.root_ref_value.
+  Codec.root_ref_value
+  Diff.extract Diff.net Store.expected_store Store.expected_fast commit_ops_sha
+  get_proof_sha Ics23.marshal_commitment_proof.
